@@ -612,9 +612,14 @@ func (c *twoPhaseCommitter) initKeysAndMutations(ctx context.Context) error {
 				}
 			} else {
 				if isUnnecessaryKV {
-					continue
-				}
-				if !txn.IsPessimistic() && flags.HasPresumeKeyNotExists() {
+					if !flags.HasLocked() {
+						continue
+					}
+					// As for a non-empty value: the key was locked before, so prewrite the lock even if the
+					// deletion needn't be committed. Otherwise its pessimistic lock is left behind.
+					op = getLockTypeFromFlags(flags)
+					lockCnt++
+				} else if !txn.IsPessimistic() && flags.HasPresumeKeyNotExists() {
 					// delete-your-writes keys in optimistic txn need check not exists in prewrite-phase
 					// due to `Op_CheckNotExists` doesn't prewrite lock, so mark those keys should not be used in commit-phase.
 					op = kvrpcpb.Op_CheckNotExists
